@@ -23,9 +23,9 @@ func init() {
 	addMutant(mutant{Name: "wal/storelogs-fallible-after-append", Fire: []string{"ORD-14"},
 		Edits: []edit{{"wal.go", "	w.metrics.IncrementCounter(\"log_appends\", 1)\n", "	w.metrics.IncrementCounter(\"log_appends\", 1)\n	if _, err := w.metaDB.GetStable([]byte(\"x\")); err != nil {\n		return err\n	}\n"}}})
 	addMutant(mutant{Name: "wal/deleterange-no-await", Fire: []string{"ORD-15"},
-		Edits: []edit{{"wal.go", "	// Ensure queued rotation has completed before us if we raced with it for\n	// write lock.\n	w.awaitRotationLocked()\n\n	s, release := w.acquireState()\n	defer release()\n\n	// Work out", "	s, release := w.acquireState()\n	defer release()\n\n	// Work out"}}})
+		Edits: []edit{{"wal.go", "	w.awaitRotationLocked()\n\n	// Close may have completed while we waited for the lock or the rotation.\n	if err := w.checkClosed(); err != nil {\n		return err\n	}\n\n	s, release := w.acquireState()\n	defer release()\n\n	// Work out", "	// Close may have completed while we waited for the lock or the rotation.\n	if err := w.checkClosed(); err != nil {\n		return err\n	}\n\n	s, release := w.acquireState()\n	defer release()\n\n	// Work out"}}})
 	addMutant(mutant{Name: "wal/storelogs-state-before-lock", Fire: []string{"ORD-15"},
-		Edits: []edit{{"wal.go", "	w.writeMu.Lock()\n	defer w.writeMu.Unlock()\n\n	// Ensure queued rotation has completed before us if we raced with it for\n	// write lock.\n	w.awaitRotationLocked()\n\n	s, release := w.acquireState()\n	defer release()\n\n	// Verify monotonicity",
+		Edits: []edit{{"wal.go", "	w.writeMu.Lock()\n	defer w.writeMu.Unlock()\n\n	// Ensure queued rotation has completed before us if we raced with it for\n	// write lock.\n	w.awaitRotationLocked()\n\n	// Close may have completed while we waited for the lock or the rotation.\n	if err := w.checkClosed(); err != nil {\n		return err\n	}\n\n	s, release := w.acquireState()\n	defer release()\n\n	// Verify monotonicity",
 			"	s, release := w.acquireState()\n	defer release()\n\n	w.writeMu.Lock()\n	defer w.writeMu.Unlock()\n\n	// Ensure queued rotation has completed before us if we raced with it for\n	// write lock.\n	w.awaitRotationLocked()\n\n	// Verify monotonicity"}}})
 	addMutant(mutant{Name: "wal/trigger-without-await-chan", Fire: []string{"ORD-16"},
 		Edits: []edit{{"wal.go", "	w.awaitRotate = make(chan struct{})\n	w.triggerRotate <- indexStart", "	w.triggerRotate <- indexStart"}}})
@@ -34,7 +34,7 @@ func init() {
 	addMutant(mutant{Name: "wal/rotate-error-skips-wakeup", Fire: []string{"ORD-16"},
 		Edits: []edit{{"wal.go", "			w.log.Error(\"rotate error\", \"err\", err)\n", "			w.log.Error(\"rotate error\", \"err\", err)\n			w.writeMu.Unlock()\n			continue\n"}}})
 	addMutant(mutant{Name: "wal/open-no-rotate-goroutine", Fire: []string{"ORD-17"},
-		Edits: []edit{{"wal.go", "	go w.runRotate()\n\n	return w, nil", "	return w, nil"}}})
+		Edits: []edit{{"wal.go", "	go w.runRotate()\n\n	opened = true", "	opened = true"}}})
 	addMutant(mutant{Name: "wal/open-no-sweep", Fire: []string{"ORD-17"},
 		Edits: []edit{{"wal.go", "	// Delete any unused segment files left over after a crash.\n	w.deleteSegments(toDelete)\n", ""}}})
 	addMutant(mutant{Name: "wal/open-no-recreate-missing-tail", Fire: []string{"ORD-18"},
